@@ -9,6 +9,8 @@ import warnings
 
 import numpy as np
 
+import common
+
 AUX = ["numbers", "tags", "uid", "initial_charges"]  # + the two columns of the 2-D array "c2"
 
 
@@ -276,7 +278,7 @@ class Sim:
         else:
             raise ValueError(ens)
         self.mc = mc
-        mc._rng = self.rng
+        common.set_rng(mc, self.rng)
         mc.context.rng = self.rng
         streams = self.streams
 
